@@ -80,6 +80,9 @@ def run(ctx):
     ctx.explain("E-DDDMP.callers: every caller of dddmp::import in the workspace (CLI, C and Python bindings) that derives the variable "
                 "mapping from the header reads support_var_order() (support variables by level position), never support_vars().")
     edddmp.check_import_callers(ctx, F)
+    ctx.explain("E-DDDMP.ctrlflag: write_replacing_control (interpreted on model strings) writes the name with control characters replaced "
+                "by spaces and returns true exactly when it replaced one (the flag behind the strict-mode error for diagram names).")
+    edddmp.check_replacing_flag(ctx, F)
     ns = edddmp.check_strict_mode(ctx, F)
     ctx.floor("E-DDDMP.strictmode", "error creations in the exporter", ns, 4)
     nr = ebin.check_node_records(ctx, F)
